@@ -15,6 +15,7 @@ import random
 import re
 
 from vlib.core import Check, Stream, b01, hs, hx, line, opt, out_list, unhx
+from harness.pyprelude import PreludeKernels
 
 # --------------------------------------------------------------------------
 # body grammar (shared with harness/c10.py and harness/c02.py)
@@ -632,14 +633,15 @@ class FormStream(Stream):
 
 CHECK = Check(
     prop="C01",
-    gen=["Multipart"],
-    modules=["WzVerif.Props.C01"],
-    streams=[KernelStream(), DataKernelStream(), SplitStream(), FormStream()],
+    gen=["Multipart", "PyFns_Multipart"],
+    modules=["WzVerif.Props.C01", "WzVerif.Props.C01T"],
+    streams=[KernelStream(), DataKernelStream(), SplitStream(), FormStream(), PreludeKernels()],
     assumptions=[
         "CPython `re` (the five patterns compiled by werkzeug.sansio.multipart), bytes.splitlines/strip/find/rfind and str.strip/partition are modelled by hand-written total functions; validated by stream regex-kernels, not verified",
         "horizontal whitespace class [^\\S\\n\\r] and SEARCH_EXTRA_LENGTH are regenerated from the live module on every run; the regex pattern texts are regenerated and compared with the modelled ones by `decide`",
         "parse_options_header is modelled in Model/FormOptions.lean for token / quoted parameters and RFC 2231 numbered continuations; the charset form key*=utf-8''... is outside the model (never generated)",
         "header names are compared with ASCII lower-casing (Python uses str.lower); header lines are decoded with Lean core's strict UTF-8 decoder",
+        "MultipartDecoder.last_newline is regenerated from the source by tools/py2lean.py (Gen/PyFns_Multipart.lean) on every run and proved equal to the hand model lastNewline for all inputs (Props/C01T); bytes.rfind / slicing are modelled in Util/PyPrelude.lean and validated by stream prelude-kernels",
         "boundaries contain no CR / LF (hypothesis BoundaryOk of the theorems; FormDataParser takes the boundary from a header parameter)",
         "F01c (transport padding on the first delimiter longer than the retained search tail) is repaired by f636614; the repaired search-position rule is modelled (nextSearchPos) and proved sound without a padding bound",
     ],
